@@ -108,7 +108,7 @@ def contract_raw(rng, inv, outv, na=(0, 2), ng=(1, 3), dyadic=0.0, nmax=3, band=
     return {"inv": list(inv), "outv": list(outv), "a": a, "g": g}
 
 
-SCHEMAS = ["indep", "cascade", "cascade_rev", "shared", "casc_shared", "feedback", "feedback_free", "fanout", "casc_extra"]
+SCHEMAS = ["indep", "cascade", "cascade_rev", "shared", "casc_shared", "feedback", "feedback_free", "fanout", "casc_extra", "sibling"]
 
 
 def pair_raw(rng, schema, dyadic=0.0):
@@ -141,6 +141,17 @@ def pair_raw(rng, schema, dyadic=0.0):
     elif schema == "fanout":
         d1 = contract_raw(rng, ["i"], ["y", "z"], ng=(2, 3), dyadic=dyadic, band=B)
         d2 = contract_raw(rng, ["y", "z"], ["p"], na=(1, 2), dyadic=dyadic, band=B)
+    elif schema == "sibling":
+        # the producer bounds its output from one side only; the consumer's two assumptions bound it from
+        # the other side and could only be discharged through each other (which would be circular)
+        sg = rng.choice([1, -1])
+        d1 = {"inv": ["i"], "outv": ["y"], "a": [], "g": [({"y": -sg, "i": rng.choice([1, 2, -1])}, rng.randint(0, 3))]}
+        d2 = {"inv": ["y", "s"], "outv": ["p"],
+              "a": [({"s": rng.choice([1, 2]), "y": sg * rng.choice([1, 2])}, rng.randint(3, 8)), ({"y": sg}, rng.randint(2, 6))],
+              "g": [rrow(rng, ["y", "s", "p"], must="p", nmax=2)]}
+        if rng.random() < 0.5:
+            d2["a"].reverse()
+        swap = rng.random() < 0.3
     else:  # casc_extra: the consumer has a private input and the producer a private output
         d1 = contract_raw(rng, ["i"], ["y", "o"], ng=(2, 3), dyadic=dyadic, band=B)
         d2 = contract_raw(rng, ["y", "j"], ["p"], na=(1, 2), dyadic=dyadic, band=B)
